@@ -398,10 +398,15 @@ func runGenesis(r *hx.R, n int, w *hx.W, _ []string) error {
 						ok.Votes.Insert(ctx, val, oracletypes.NewAggregateExchangeRateVote(oracletypes.ExchangeRateTuples{{Pair: asset.MustNewPair("unibi:uusd"), ExchangeRate: sdkmath.LegacyNewDec(r.Range(1, 50))}}, val))
 					}
 					total := sdk.NewCoins(sdk.NewInt64Coin("unibi", r.Range(1000, 99999)))
+					if r.Chance(1, 2) {
+						// a second denom worth less than one unit per vote period: AllocateRewards stores it as a zero-amount coin,
+						// which export and import have to carry over like the rest of the reward
+						total = total.Add(sdk.NewInt64Coin("uusd", r.Range(1, 5)))
+					}
 					if err := testapp.FundModuleAccount(a1.BankKeeper, ctx, "inflation", total); err != nil {
 						return err
 					}
-					return ok.AllocateRewards(ctx, "inflation", total, uint64(r.Range(1, 6)))
+					return ok.AllocateRewards(ctx, "inflation", total, uint64(r.Range(6, 9)))
 				})
 			}
 		}
